@@ -50,9 +50,12 @@ class PairRecorder:
         rec = self
 
         def w(poses, delta, delta_unit, rel_tol=0.1, all_pairs=False):
+            call = {"pairs": [], "n": len(poses), "first_T": np.array(poses[0], dtype=float).copy(),
+                    "args": {"delta": float(delta), "unit": getattr(delta_unit, "value", str(delta_unit)),
+                             "rel_tol": float(rel_tol), "all_pairs": bool(all_pairs)}}
+            rec.calls.append(call)
             out = rec._orig(poses, delta, delta_unit, rel_tol, all_pairs)
-            rec.calls.append({"pairs": [(int(i), int(j)) for i, j in out], "n": len(poses),
-                              "first_T": np.array(poses[0], dtype=float).copy()})
+            call["pairs"] = [(int(i), int(j)) for i, j in out]
             return out
 
         metrics.id_pairs_from_delta = w
@@ -305,6 +308,10 @@ def rpe_cli(run, case, rng, work):
     argv_o, o = C01.draw_common_options(rng, fp)
     du = "fmrd"[rng.integers(4)] if rng.random() < .6 else "f"
     all_pairs = bool(rng.random() < .3)
+    if "force_all_pairs" in case:
+        all_pairs = bool(case["force_all_pairs"])
+    if case.get("force_unit"):
+        du = case["force_unit"]
     if case.get("real") and du in "rd":
         all_pairs = False  # the all-pairs angle search is O(n^2) on thousands of poses
     if du == "f":
@@ -318,8 +325,11 @@ def rpe_cli(run, case, rng, work):
     argv = [fmt, os.path.basename(fp["ref_path"]), os.path.basename(fp["est_path"]),
             "-r", rel_cli, "--delta", repr(delta) if du != "f" else str(int(delta)),
             "--delta_unit", du] + argv_o
-    if rng.random() < .3:
-        argv += ["--delta_tol", repr(float([0.05, 0.3][rng.integers(2)]))]
+    tol = 0.1
+    if rng.random() < .35 or "force_tol" in case:
+        tol = float([0.0, 0.05, 0.3][rng.integers(3)])  # (0 is a legal tolerance: exact hits only)
+        tol = float(case.get("force_tol", tol))
+        argv += ["--delta_tol", ["0", "0.0"][rng.integers(2)] if tol == 0 else repr(tol)]
     if all_pairs:
         argv.append("--all_pairs")
     from_ref = bool(rng.random() < .3)
@@ -357,6 +367,13 @@ def rpe_cli(run, case, rng, work):
                   key="cli:refusal-mismatch", argv=argv)
         run.hit("L3 refusals agreed" if got == r.kind else "L3 refusal mismatch")
         return None
+    if prec.calls:
+        a = prec.calls[0]["args"]
+        want_unit = {"f": "frames", "m": "m", "r": "rad", "d": "deg"}[du]
+        run.check(a["rel_tol"] == tol and a["delta"] == delta and a["all_pairs"] == all_pairs and a["unit"] == want_unit,
+                  "the pair selection receives the requested delta, unit, tolerance and mode", case,
+                  "evo_rpe was asked for delta=%r %s tol=%r all_pairs=%r but selected pairs with %r" %
+                  (delta, want_unit, tol, all_pairs, a), key="cli:selection-options", argv=argv)
     # the metric stage itself may legitimately refuse: no pair for delta, angle delta range, unit
     if got == "FilterException" and (not prec.calls or not prec.calls[0]["pairs"]):
         run.hit("L3 refusals agreed (no pair for this delta - selection is C10's business)")
@@ -406,7 +423,8 @@ def rpe_cli(run, case, rng, work):
     want, kept = rm.rpe_definition(relation, ref_s.R, ref_s.p, est_s.R, est_s.p, pairs)
     surv = [pr for pr, k in zip(pairs, kept) if k]
     judge_values(run, case, relation, e, drec.delta_ids, pairs, ref_s, est_s, factor, "evo_rpe", "cli")
-    return {"z": z, "processed": processed, "pairs": pairs, "surv": surv, "P": P, "o": o,
+    return {"z": z, "processed": processed, "pairs": pairs, "surv": surv, "P": P, "o": o, "from_ref": from_ref,
+            "selection": {"delta": delta, "unit": du, "tol": tol, "all_pairs": all_pairs},
             "relation": relation, "unit": unit, "factor": factor, "fp": fp, "argv": argv, "tool": "rpe",
             "stored": C01.stored_pair(z, fp)}
 
